@@ -177,7 +177,7 @@ def main(a):
     if lost_fns and not a.only:
         have = {h.name for h in harnesses}
         for h in kani_engine.list_harnesses():
-            if pid in h.props and h.name not in have and h.tier != "extended" and h.timeout <= 2400 and any(f.split("::")[-1] in lost_fns for f in h.funcs):
+            if pid in h.props and h.name not in have and h.tier != "extended" and h.declared_timeout <= 2400 and any(f.split("::")[-1] in lost_fns for f in h.funcs):
                 harnesses.append(h)
                 escalated.append(h.name)
         if escalated:
